@@ -163,6 +163,10 @@ struct M : Machine {
     if (o == "t.linkE") { Peek::linkE(G, toU(k[1]), toU(k[2]), toU(k[3])); return "ok"; }
     if (o == "t.rootAt") { T.rootAt(toU(k[1])); return "ok"; }
     if (o == "t.unRoot") { T.unRoot(toU(k[1]) != 0); return "ok"; }
+    if (o == "t.createNodeFromNode") return U(T.createNodeFromNode(toU(k[1])));
+    if (o == "t.createNodeOnEdge") return U(T.createNodeOnEdge(toU(k[1])));
+    if (o == "t.createNodeFromEdge") return U(T.createNodeFromEdge(toU(k[1])));
+    if (o == "t.orientate") { T.orientate(); return "ok"; }
     if (o == "t.setOutGroup") { T.setOutGroup(toU(k[1])); return "ok"; }
     // ---- queries
     if (o == "t.valid") return B(T.isValid());
